@@ -227,4 +227,22 @@ def splitUri (schemes : List (Bytes × Nat × Bool × Nat)) (proxy : Bool) (s : 
               | none => none
               | some (p, q) => some ⟨id, h, (match port with | some n => n | none => dport), p, q⟩
 
+/-! ### the part of the input space S does not speak about (D16f) -/
+
+/-- the authority starts with "%2F" / "%2f": libcoap's notation for a Unix domain socket in place of a host -/
+def unixStart (p : Bytes) : Bool :=
+  match p with
+  | a :: b :: c :: _ => a == 0x25 && b == 0x32 && (c == 0x46 || c == 0x66)
+  | _ => false
+
+/-- SPEC DECISION D16f: the URI has a scheme and its authority starts with "%2F" / "%2f" -/
+def unixAuthority (s : Bytes) : Bool :=
+  match s with
+  | [] => false
+  | c :: _ =>
+    if c = 0x2f then false else
+    match findSchemeEnd s with
+    | some nr => unixStart nr.2
+    | none => false
+
 end Coap.Spec.Uri
